@@ -56,7 +56,11 @@ namespace igris
             return bWasSignalled;
         }
 
-        inline bool isset() const { return m_bFlag; }
+        inline bool isset() const
+        {
+            std::lock_guard<std::mutex> _lock(m_mutex);
+            return m_bFlag;
+        }
     };
 }
 
